@@ -31,6 +31,7 @@ var extractors = []extractor{
 	{"Unify", genUnify},
 	{"AuthFacts", genAuthFacts},
 	{"Debug", genDebug},
+	{"SrvHandlers", genSrvHandlers},
 }
 
 func main() {
